@@ -227,7 +227,7 @@ inline std::string host(ByteSource& b) {
       s = ascii_label(b) + "." + ascii_label(b);
       static const char* odd[] = {" ", "<", ">", "^", "|", "%", "\x7f", "\x01", "\"", "`", "{", "}", "*", "!", "$", "&", "'", "(", ")", "+", ",", ";", "=", "~", "_", "\t", "\n", "[", "]", "\\", "\xc2\xa0", "\xef\xbf\xbd", "@", ":", "\x1f", "\x00x"};
       std::string o = b.pick(odd);
-      size_t pos = b.below((uint32_t)s.size() + 1);
+      size_t pos = utf8_boundary(s, b.below((uint32_t)s.size() + 1));
       s.insert(pos, o);
       break;
     }
@@ -350,7 +350,7 @@ inline std::string url(ByteSource& b) {
   if (b.chance(36) && !s.empty()) {
     static const char* inj[] = {"\t", "\n", "\r", "\t\n", "\r\n"};
     unsigned k = 1 + b.below(2);
-    for (unsigned i = 0; i < k; i++) s.insert(b.below((uint32_t)s.size() + 1), b.pick(inj));
+    for (unsigned i = 0; i < k; i++) s.insert(utf8_boundary(s, b.below((uint32_t)s.size() + 1)), b.pick(inj));
   }
   return s;
 }
